@@ -168,8 +168,15 @@ def _work_rand(args):
                     # differences are exact: three clearly distinct points, however close compared with their coordinates
                     p0 = rng.integers(-1024, 1025, 3).astype(float)
                     g = 2.0 ** -int(rng.integers(5, 10))
+                    tiny = rng.random() < 0.5
+                    if tiny:
+                        # every coordinate large (600 .. 1024 nm) and the triple only 2^-9 nm across: the points differ by less
+                        # than a relative 1e-5 of their coordinates, and are three different points all the same
+                        p0 = (rng.integers(600, 1025, 3) * rng.choice([-1, 1], 3)).astype(float)
+                        g = 2.0 ** -9
                     while True:
-                        a, b = rng.integers(-8, 9, 3).astype(float), rng.integers(-8, 9, 3).astype(float)
+                        span = 2 if tiny else 9
+                        a, b = rng.integers(1 - span, span, 3).astype(float), rng.integers(1 - span, span, 3).astype(float)
                         if np.linalg.norm(np.cross(a, b)) > 1e-3 * max(np.linalg.norm(a) * np.linalg.norm(b), 1e-300) and a.any() and b.any():
                             break
                     p1, p2 = p0 + b * g, p0 + a * g
